@@ -28,9 +28,9 @@ SCHEME_PRELUDE = r"""
 
 def gen_chunks(rng, kind, direction, size, allow_block=True):
     """chunk tape for a stream of roughly `size` bytes"""
-    if kind == "fd" and direction == "out" and not rng.chance(1, 6):
-        # descriptor output under back-pressure (short / would-block writes) is a recorded finding (F9): keep it to a
-        # minority of the descriptor sinks so that it does not drown the rest of the search
+    if kind == "fd" and direction == "out" and not rng.chance(1, 2):
+        # half of the descriptor sinks run without back-pressure (the other half get short / would-block writes; findings F9 and
+        # F31 lived there until they were repaired)
         return []
     mode = rng.weighted([("ones", 2), ("small", 4), ("mixed", 4), ("default", 2)])
     n = rng.range(0, min(400, max(4, size * 2)))
